@@ -134,6 +134,7 @@ struct Cfg
   std::vector<double> la, lb;
   std::vector<std::string> lclass;
   int ldraws = 50;
+  bool newStyle = false; // run every execution of this configuration with law_set_old_style(false) (Mersenne twister)
   std::string sig;
 };
 
@@ -656,6 +657,12 @@ static Cfg drawCfg(Rng& r, bool th, long icase)
   else if (f < 92) drawPgs(r, c, th, false);
   else if (f < 98) drawPgs(r, c, th, true);
   else { c.family = F_SEED; c.sig = "seed"; }
+  // one case in four runs with the new-style generator (decided on the case index: the draws above are unchanged)
+  if (c.family != F_SEED && icase % 4 == 2)
+  {
+    c.newStyle = true;
+    c.sig += ":newstyle";
+  }
   return c;
 }
 
@@ -869,7 +876,7 @@ static Out execLgbb(const Cfg& c, int seed, int /*gseed*/)
   }
   return o;
 }
-static Out execute(const Cfg& c, int seed, int gseed)
+static Out execute1(const Cfg& c, int seed, int gseed)
 {
   switch (c.family)
   {
@@ -882,6 +889,14 @@ static Out execute(const Cfg& c, int seed, int gseed)
     case F_BIPGS: return execBiPgs(c, seed, gseed);
   }
   return Out();
+}
+static Out execute(const Cfg& c, int seed, int gseed)
+{
+  // law_set_old_style: "true for using Old Style; false for using New Style" (Law.cpp); old style is the default
+  law_set_old_style(!c.newStyle);
+  Out o = execute1(c, seed, gseed);
+  law_set_old_style(true);
+  return o;
 }
 
 // unrelated use of the global generator and of the default space between two runs
